@@ -100,7 +100,39 @@ ClosePairs == {<<a, b>> : a \in {c \in Reduced : c[1] = "CloseArchive" /\ c[2] \
 CursorObs == {<<"GetFileInfo", 3, "", 10, 8, <<>>>>, <<"SetFilePointer", 3, "", -1, 1, <<>>>>,
               <<"SetFilePointer", 3, "", 0, 1, <<>>>>, <<"ReadFile", 3, "", 3, 0, <<>>>>}
 CursorPairs == {<<a, b>> : a \in {c \in Singles : c[1] \in {"ReadFile", "SetFilePointer"} /\ c[2] = 3}, b \in CursorObs}
-EnumCases == <<FillCase>> \o SetToSeq({ECase(<<CallRec(p[1]), CallRec(p[2])>>, "closepair") : p \in ClosePairs})
+\* "exactly its own": three archives (1 = A, 2 = B writable, 9 = A again), each with a live search handle (4, 8, 11)
+\* and two with a live file (3, 10); one of them is closed, then every handle is probed
+Setup3 == Setup \o << C("FindFirst", 2, "", 0, 0), C("OpenArchive", 0, "A", 0, 0), C("OpenFileEx", 9, "f1", 0, 0),
+                      C("FindFirst", 9, "", 0, 0) >>
+Probes3 == << C("FindNext", 4, "", 0, 0), C("FindNext", 8, "", 0, 0), C("FindNext", 11, "", 0, 0),
+              C("ReadFile", 3, "", 1, 0), C("ReadFile", 10, "", 1, 0), C("HasFile", 1, "f0", 0, 0), C("HasFile", 9, "f0", 0, 0) >>
+ThreeArch == {[kind |-> "seq", disk |-> DiskJ, setup |-> Setup3, label |-> "threearch",
+               prog |-> [T1 |-> <<C("CloseArchive", a, "", 0, 0)>> \o Probes3]] : a \in {1, 2, 9}}
+\* id allocation after a close: a closing call, two allocating calls, then the old handles are probed (an id that
+\* collides with a live handle of any table is rejected by FreshId)
+Closers == {C("CloseFile", 3, "", 0, 0), C("FindClose", 4, "", 0, 0), C("CloseArchive", 1, "", 0, 0), C("CloseArchive", 2, "", 0, 0)}
+Allocs  == {C("OpenArchive", 0, "A", 0, 0), C("OpenFileEx", 1, "f1", 0, 0), C("FindFirst", 1, "", 0, 0), C("FindFirst", 2, "", 0, 0),
+            C("OpenFileEx", 2, "f0", 0, 0)}
+AllocChains == {[kind |-> "seq", disk |-> DiskJ, setup |-> Setup, label |-> "allocchain",
+                 prog |-> [T1 |-> <<c, a1, a2, C("GetFileSize", 3, "", 0, 0), C("FindNext", 4, "", 0, 0),
+                                    C("GetFileInfo", 8, "", 7, 8), C("GetFileInfo", 9, "", 7, 8)>>]] : c \in Closers, a1 \in Allocs, a2 \in Allocs}
+\* multi-sector contents (sector = 4096 bytes): reads and seeks across sector boundaries of a 9000-byte file
+BigLen == 9000
+BigData == [i \in 1..BigLen |-> (i * 7 + i \div 256) % 251]
+BigDisk == [DiskJ EXCEPT !["A"]["f2"] = BigData]
+BigOffs == IF Thorough THEN {0, 4095, 4096, 4097, 8191, 8192, 8999, 9000} ELSE {4095, 4097, 8999}
+BigReqs == IF Thorough THEN {1, 4096, 4097, 9001} ELSE {4097, 9001}
+BigCases == {[kind |-> "seq", disk |-> BigDisk, label |-> "big",
+              setup |-> << C("OpenArchive", 0, "A", 0, 0), C("OpenFileEx", 1, "f2", 0, 0) >>,
+              prog |-> [T1 |-> << C("SetFilePointer", 2, "", off, 0), C("ReadFile", 2, "", req, 0), C("GetFileInfo", 2, "", 10, 8),
+                                  C("SetFilePointer", 2, "", -4097, 1), C("ReadFile", 2, "", 2, 0) >>]] : off \in BigOffs, req \in BigReqs}
+            \cup {[kind |-> "seq", disk |-> BigDisk, label |-> "big",
+                   setup |-> << C("OpenArchive", 0, "A", 0, 0), C("OpenArchive", 0, "B", 1, 0) >>,
+                   prog |-> [T1 |-> << C("ExtractFile", 1, "f2", 0, 0), [C("AddFile", 2, "f3", 0, 0) EXCEPT !.dat = BigData],
+                                       C("OpenFileEx", 2, "f3", 0, 0), C("SetFilePointer", 3, "", 4090, 0), C("ReadFile", 3, "", 4916, 0),
+                                       C("FlushArchive", 2, "", 0, 0), C("OpenFileEx", 2, "f3", 0, 0), C("ReadFile", 4, "", 9001, 0) >>]]}
+EnumCases == <<FillCase>> \o SetToSeq(ThreeArch) \o SetToSeq(AllocChains) \o SetToSeq(BigCases)
+             \o SetToSeq({ECase(<<CallRec(p[1]), CallRec(p[2])>>, "closepair") : p \in ClosePairs})
              \o SetToSeq({ECase(<<CallRec(p[1]), CallRec(p[2])>>, "cursorpair") : p \in CursorPairs}) \o SetToSeq({ECase(<<CallRec(c)>>, "single") : c \in Singles})
              \o SetToSeq({ECase(<<CallRec(p[1]), CallRec(p[2])>>, "pair") : p \in Pairs})
 ASSUME EnumMode => ndJsonSerialize(IOEnv.CASES, EnumCases) /\ PrintT(<<"GENERATED", Len(EnumCases)>>)
